@@ -179,7 +179,10 @@ class Verdict:
             self.known_lines.append(line); print(line, flush=True)
     def finish(self, level, coverage, assumptions):
         write_evidence(self.pid, self.tier, self.seed, level, coverage, time.time() - self.t0, len(self.violations), assumptions)
-        return 1 if self.violations else 0
+        # leave at once: interpreter finalisation of the engine's object graph (caches a changed tree may have added,
+        # cyclic AST / context references, pending asyncio objects) has been seen to spin for minutes after the verdict
+        sys.stdout.flush(); sys.stderr.flush()
+        os._exit(1 if self.violations else 0)
 
 def proof_coverage(b, extra):
     cov = {"obligations": len(b["theorems"]), "discharged": len(b["discharged"]),
